@@ -153,9 +153,25 @@ let () =
               let (rs, _) =
                 (match kind with
                  | "get" -> get_reads (S (nat_of_int (List.length f))) (cmp_of (nat_of_int (int_of_string cmpid))) f root (bytes_of_hex key) (wv = "t")
+                 | "asc" | "desc" ->
+                   (* key carries the target; budget after a dash in kind is passed via cmpid? no: separate request below *)
+                   ([], None)
                  | "min" -> minmax_reads f root true (wv = "t")
                  | _ -> minmax_reads f root false (wv = "t")) in
               print_endline (show rs))
+         | _ -> print_endline "noroots");
+        flush stdout
+      | ["visitreads"; dir; cmpid; name; key; wv; budget; hexfile] ->
+        let f = bytes_of_hex hexfile in
+        let name = bytes_of_hex name in
+        (match scan f (blen f) with
+         | ScanFound (_, m) ->
+           (match List.assoc_opt name m with
+            | None -> print_endline "nocoll"
+            | Some root ->
+              let ((rs, _), _) = visit_reads (S (nat_of_int (List.length f))) (cmp_of (nat_of_int (int_of_string cmpid)))
+                  (dir = "asc") f root (bytes_of_hex key) (wv = "t") (nat_of_int (int_of_string budget)) in
+              print_endline (String.concat " " ("r" :: List.map (fun (Rd (o, n)) -> Printf.sprintf "%d:%d" (int_of_z o) (int_of_z n)) rs)))
          | _ -> print_endline "noroots");
         flush stdout
       | ["openreads"; hexfile] ->
